@@ -165,6 +165,7 @@ func (w *mountWorld) partName(i int) string {
 }
 
 func runC06(r *Rng, n int, replay string) {
+	defer runC06Faults(100000)
 	cands := candidatePaths(nsNames, 4)
 	for id := 0; id < n; id++ {
 		w := buildMountWorld(r)
@@ -344,5 +345,103 @@ func runC06(r *Rng, n int, replay string) {
 			c.fail(fmt.Sprintf("AddMount(a/b) below the fresh mount a = %v, expected ENOENT", err), "addmount:guard:nested")
 		}
 		emit(c)
+	}
+}
+
+// ---- a failure injected into every primitive call of a cross-mount Rename (copy + remove) ----
+
+type c06FaultScenario struct {
+	key      string
+	name     string
+	old, new string
+	prep     func(root, a, b hackpadfs.FS)
+}
+
+func c06FaultScenarios() []c06FaultScenario {
+	data := make([]byte, 1500)
+	for i := range data {
+		data[i] = byte(i*7 + 3)
+	}
+	base := func(root, a, b hackpadfs.FS) {
+		_ = hackpadfs.Mkdir(root, "a", 0o755)
+		_ = hackpadfs.Mkdir(root, "b", 0o755)
+		_ = hackpadfs.WriteFullFile(root, "r", data[:700], 0o640)
+		_ = hackpadfs.WriteFullFile(a, "x", data, 0o600)
+		_ = hackpadfs.WriteFullFile(a, "y", []byte("keep me"), 0o644) // same relative name as a destination in another mount
+		_ = hackpadfs.Mkdir(a, "z", 0o755)
+		_ = hackpadfs.WriteFullFile(b, "old", []byte("previous"), 0o644)
+	}
+	return []c06FaultScenario{
+		{"new", "mount a -> mount b, new name", "a/x", "b/y", base},
+		{"existing", "mount a -> mount b, onto an existing file", "a/x", "b/old", base},
+		{"dirname", "mount a -> mount b, a name that is a directory in the source mount", "a/x", "b/z", base},
+		{"toroot", "mount a -> root", "a/x", "r2", base},
+		{"fromroot", "root -> mount b", "r", "b/y", base},
+	}
+}
+
+func runC06Faults(idBase int) {
+	cands := candidatePaths([]string{"a", "b", "r", "r2", "x", "y", "z", "old"}, 2)
+	id := idBase
+	for _, sc := range c06FaultScenarios() {
+		build := func(failAt int, calls *int, log *[]string) (*mount.FS, []hackpadfs.FS) {
+			root, a, b := newMem(), newMem(), newMem()
+			sc.prep(root, a, b)
+			m, _ := mount.NewFS(faultFull{base: root, calls: calls, failAt: failAt, log: log})
+			if err := m.AddMount("a", faultFull{base: a, calls: calls, failAt: failAt, log: log}); err != nil {
+				panic(err)
+			}
+			if err := m.AddMount("b", faultFull{base: b, calls: calls, failAt: failAt, log: log}); err != nil {
+				panic(err)
+			}
+			return m, []hackpadfs.FS{root, a, b}
+		}
+		// failure-free run: how many primitive calls the set-up and the rename make, and what the result is
+		calls := 0
+		var log []string
+		m0, parts0 := build(-1, &calls, &log)
+		setup := calls
+		err0 := m0.Rename(sc.old, sc.new)
+		total := calls
+		var wantAfter [][]SnapEntry
+		for _, p := range parts0 {
+			wantAfter = append(wantAfter, Snapshot(p, cands))
+		}
+		for k := setup; k < total; k++ {
+			c := &Case{ID: id, Kind: "rename-fault"}
+			id++
+			n := 0
+			m, parts := build(k, &n, nil)
+			var before [][]SnapEntry
+			for _, p := range parts {
+				before = append(before, Snapshot(p, cands))
+			}
+			var err error
+			func() {
+				defer func() {
+					if e := recover(); e != nil {
+						err = fmt.Errorf("panic: %v", e)
+						c.fail(fmt.Sprintf("%s: Rename(%q, %q) with primitive call %d (%s) failing panicked: %v", sc.name, sc.old, sc.new, k, log[k], e), "rename-fault:panic")
+					}
+				}()
+				err = m.Rename(sc.old, sc.new)
+			}()
+			c.Text = []string{fmt.Sprintf("%s: Rename(%q, %q), primitive call %d (%s) fails -> %v   (without the failure: %v)", sc.name, sc.old, sc.new, k, log[k], err, err0)}
+			c.Cells = []string{"rename-fault/" + strings.Fields(log[k])[0]}
+			for i, p := range parts {
+				after := Snapshot(p, cands)
+				switch {
+				case err != nil:
+					if d := snapDiffExact(before[i], after); d != "" {
+						c.fail(fmt.Sprintf("%s: the failed Rename changed %s: %s", c.Text[0], []string{"the root FS", "the FS mounted at a", "the FS mounted at b"}[i], d), "rename-fault:"+sc.key+":changed:"+strings.Fields(log[k])[0])
+					}
+				default:
+					if d := snapDiffExact(wantAfter[i], after); d != "" {
+						c.fail(fmt.Sprintf("%s: Rename reported success but %s is not what a complete rename leaves: %s", c.Text[0], []string{"the root FS", "the FS mounted at a", "the FS mounted at b"}[i], d), "rename-fault:"+sc.key+":silent:"+strings.Fields(log[k])[0])
+					}
+				}
+			}
+			emit(c)
+		}
 	}
 }
